@@ -12,6 +12,10 @@ pub trait AsyncSeek {}
 
 pub spec const MAX_BUFFER_SIZE: nat = 16777216;
 
+/// binary_stream::{Endian, Options} (lib.rs): plain data
+pub enum Endian { Big, Little }
+pub struct Options { pub endian: Endian, pub max_buffer_size: Option<usize> }
+
 pub enum SeekFrom { Start(u64), End(i64), Current(i64) }
 
 pub ghost struct Stream { pub bytes: Seq<u8>, pub pos: nat }
